@@ -103,6 +103,39 @@ impl Ctx {
             unsafe { libc::_exit(0) };
         }
     }
+    /// C06 quantifies over ALL byte strings, valid files included: if the fault-free reference run of an undamaged
+    /// file PANICS (not: returns an error, not: round-trips to another value - those belong to other properties),
+    /// that is a violation in its own right, reported as the case `intact`.
+    fn intact_failed(&mut self, base: &Case, err: &str) {
+        if base.prop != "C06" || !err.contains("panicked") {
+            return;
+        }
+        let mut c = base.clone();
+        c.config = "intact".into();
+        let site: String = err.rsplit(" at ").next().unwrap_or("?").chars().take(80).collect();
+        let rec = AccountRec {
+            job: self.job,
+            case: c.to_json(),
+            config: c.config.clone(),
+            container: c.container.name().to_string(),
+            wrappers: c.container.wrappers().to_string(),
+            subject: c.subject.clone(),
+            bufsize: c.bufsize,
+            encrypted: c.container.encrypted(),
+            multi_chunk: false,
+            sig_region: "-".into(),
+            summary: EvalSummary {
+                outcome: "panic".into(),
+                fired: vec![],
+                probes: vec![],
+                violation: Some(Violation { oracle: "C06.intact.panic".into(), detail: format!("saving/loading an UNDAMAGED file panicked: {}", err), fault_kind: "none".into(), region: "-".into(), site }),
+                log_hash: 0,
+                steps: 0,
+                note: String::new(),
+            },
+        };
+        self.deliver(rec);
+    }
     fn deliver(&mut self, rec: AccountRec) {
         if let Some(f) = &mut self.emit {
             use std::io::Write;
@@ -471,25 +504,32 @@ fn enum_c07(ctx: &mut Ctx, seed: u64) -> Result<(), String> {
         c.rplan = noise.clone();
         ctx.eval(&c, &mut env);
     }
-    if base.container == Container::EncCompressed && env.ref_bytes.len() < 3000 {
-        realfile_truncations(ctx, &base, &env, "C07")?;
+    // the *_file convenience wrappers on a real file (they add their own buffering, open/retry logic and Drop order)
+    if let Some(kind) = RealKind::of_container(base.container) {
+        if env.ref_bytes.len() < 3000 {
+            realfile_truncations(ctx, &base, &env, "C07", kind)?;
+        }
     }
     Ok(())
 }
 
 /// every truncation length of a real file written by save_encrypted_file, read by load_encrypted_file
-fn realfile_truncations(ctx: &mut Ctx, base: &Case, env: &Env, prop: &str) -> Result<(), String> {
+fn realfile_truncations(ctx: &mut Ctx, base: &Case, env: &Env, prop: &str, kind: RealKind) -> Result<(), String> {
+    if env.subj.name() == "CryptoPipe" {
+        return Ok(());
+    }
     let dir = tmp_dir();
     let path = dir.join(format!("enc_{}.bin", std::process::id()));
     let password = format!("pw-{}", base.key);
+    let cfg_name: String = if kind == RealKind::Encrypted { "realfile-truncate".into() } else { format!("realfile-truncate-{}", kind.name()) };
     set_hooks(base);
-    if let Err(e) = env.subj.save_encrypted_file(&env.value, &path, true, &password) {
-        return Err(format!("save_encrypted_file failed: {:?}", e));
+    if let Err(e) = env.subj.save_real(&env.value, &path, kind, &password) {
+        return Err(format!("save to a real file ({}) failed: {:?}", kind.name(), e));
     }
     let full = std::fs::read(&path).map_err(|e| e.to_string())?;
     // sanity: intact file loads
     arm_cpu_watchdog(EVAL_CPU_SECONDS);
-    let intact = simcore::guarded(|| env.subj.load_encrypted_file(&path, &password));
+    let intact = simcore::guarded(|| env.subj.load_real(&path, kind, &password));
     arm_cpu_watchdog(0);
     match intact {
         Ok(Ok(v)) if env.subj.same(&v, &env.value) => {}
@@ -504,39 +544,39 @@ fn realfile_truncations(ctx: &mut Ctx, base: &Case, env: &Env, prop: &str) -> Re
         }
         std::fs::write(&path, &full[..k]).map_err(|e| e.to_string())?;
         arm_cpu_watchdog(EVAL_CPU_SECONDS);
-        let r = simcore::guarded(|| env.subj.load_encrypted_file(&path, &password));
+        let r = simcore::guarded(|| env.subj.load_real(&path, kind, &password));
         arm_cpu_watchdog(0);
         ctx.stats.inc("evals");
-        ctx.stats.inc("config.realfile-truncate");
+        ctx.stats.inc(&format!("config.{}", cfg_name));
         ctx.stats.inc("fired.cut");
         ctx.stats.inc("evals_with_fault_fired");
-        let region = if k < 12 { "nonce" } else { "body" };
+        let region = if kind == RealKind::Encrypted { if k < 12 { "nonce" } else { "body" } } else if k < 16 { "header" } else { "body" };
         let (outcome, viol): (&str, Option<(String, String, String)>) = match r {
             Ok(Ok(v)) => {
                 if prop == "C14" {
-                    ("ok", Some((format!("{}.realfile-truncate.accepted", prop), format!("load_encrypted_file accepted a file truncated to {} of {} bytes", k, full.len()), "load-returned-ok".to_string())))
+                    ("ok", Some((format!("{}.realfile-truncate.accepted", prop), format!("the *_file loader accepted a file truncated to {} of {} bytes", k, full.len()), "load-returned-ok".to_string())))
                 } else if env.subj.same(&v, &env.value) {
                     ("ok-original", None)
                 } else {
-                    ("ok", Some((format!("{}.realfile-truncate.accepted-different", prop), format!("load_encrypted_file returned a different value for a file truncated to {} of {} bytes", k, full.len()), "load-returned-ok".to_string())))
+                    ("ok", Some((format!("{}.realfile-truncate.accepted-different", prop), format!("the *_file loader returned a different value for a file truncated to {} of {} bytes", k, full.len()), "load-returned-ok".to_string())))
                 }
             }
             Ok(Err(_)) => ("err", None),
-            Err(p) => ("panic", Some((format!("{}.realfile-truncate.panic", prop), format!("load_encrypted_file panicked on a file truncated to {} bytes: {} at {}", k, p.msg, p.site()), format!("{}:{}", p.site_file(), p.msg.chars().take(48).collect::<String>().replace(|c: char| c.is_ascii_digit(), "#"))))),
+            Err(p) => ("panic", Some((format!("{}.realfile-truncate.panic", prop), format!("the *_file loader panicked on a file truncated to {} bytes: {} at {}", k, p.msg, p.site()), format!("{}:{}", p.site_file(), p.msg.chars().take(48).collect::<String>().replace(|c: char| c.is_ascii_digit(), "#"))))),
         };
         ctx.stats.inc(&format!("outcome.{}", outcome));
-        ctx.stats.sig(format!("realfile-truncate|{}|{}|cut|{}|{}", base.subject, base.container.name(), region, outcome));
+        ctx.stats.sig(format!("{}|{}|{}|cut|{}|{}", cfg_name, base.subject, base.container.name(), region, outcome));
         if let Some((oracle, detail, site)) = viol {
             ctx.viol_count += 1;
             ctx.stats.inc("violations_raw");
             let key = format!("{}|{}|{}", oracle, site, region);
             if ctx.seen_sigs.insert(key) && ctx.stats.violations.len() < 40 {
                 let mut c = base.clone();
-                c.config = "realfile-truncate".into();
+                c.config = cfg_name.clone();
                 c.media = vec![MediaOp::Cut(k as u64)];
                 ctx.stats.violations.push(json!({
                     "job": ctx.job, "oracle": oracle, "detail": detail,
-                    "signature": {"oracle": oracle, "engine": "simio", "container": "encrypted-compressed(real file)", "wrappers": "crypto+bzip2", "fault_kind": "cut", "region": region, "site": site, "type_class": base.subject},
+                    "signature": {"oracle": oracle, "engine": "simio", "container": format!("{}(real file)", kind.name()), "wrappers": base.container.wrappers(), "fault_kind": "cut", "region": region, "site": site, "type_class": base.subject},
                     "case": c.to_json(), "log_hash": "-",
                 }));
             }
@@ -558,7 +598,8 @@ fn exec_realfile(case: &Case) -> Result<(Option<(String, String)>, &'static str)
     let path = dir.join(format!("replay_{}.bin", std::process::id()));
     let password = format!("pw-{}", case.key);
     set_hooks(case);
-    env.subj.save_encrypted_file(&env.value, &path, true, &password).map_err(|e| format!("{:?}", e))?;
+    let kind = RealKind::from_config(&case.config);
+    env.subj.save_real(&env.value, &path, kind, &password).map_err(|e| format!("{:?}", e))?;
     let full = std::fs::read(&path).map_err(|e| e.to_string())?;
     let k = match case.media.first() {
         Some(MediaOp::Cut(k)) => (*k as usize).min(full.len()),
@@ -566,8 +607,8 @@ fn exec_realfile(case: &Case) -> Result<(Option<(String, String)>, &'static str)
     };
     std::fs::write(&path, &full[..k]).map_err(|e| e.to_string())?;
     arm_cpu_watchdog(EVAL_CPU_SECONDS);
-        let r = simcore::guarded(|| env.subj.load_encrypted_file(&path, &password));
-        arm_cpu_watchdog(0);
+    let r = simcore::guarded(|| env.subj.load_real(&path, kind, &password));
+    arm_cpu_watchdog(0);
     let _ = std::fs::remove_file(&path);
     Ok(match r {
         Ok(Ok(v)) => {
@@ -706,7 +747,7 @@ fn enum_c14(ctx: &mut Ctx, seed: u64) -> Result<(), String> {
             // ... and wrong passwords, including near misses, through the real file functions
             realfile_passwords(ctx, &base, &env)?;
             if env.ref_bytes.len() < 3000 {
-                realfile_truncations(ctx, &base, &env, "C14")?;
+                realfile_truncations(ctx, &base, &env, "C14", RealKind::Encrypted)?;
             }
         }
     }
@@ -795,7 +836,13 @@ fn enum_c06(ctx: &mut Ctx, seed: u64) -> Result<(), String> {
     let mut rng = Rng::new(seed);
     let mut base = gen::gen_base("C06", &mut rng, true, seed);
     base.load_key = base.key;
-    let mut env = prepare(&base)?;
+    let mut env = match prepare(&base) {
+        Ok(e) => e,
+        Err(e) => {
+            ctx.intact_failed(&base, &e);
+            return Err(e);
+        }
+    };
     let len = env.ref_bytes.len() as u64;
     let (points, ex) = cut_points(&env, &mut rng, if ctx.tier_thorough { 4096 } else { 1000 }, 256);
     ctx.count(if ex { "enum.files_exhaustive" } else { "enum.files_sampled" }, 1);
@@ -810,6 +857,19 @@ fn enum_c06(ctx: &mut Ctx, seed: u64) -> Result<(), String> {
         }
     }
     let _ = len;
+    // encrypted containers: a cut exactly at a chunk boundary is the one truncation the chunk framing itself cannot
+    // notice (the layer above must)
+    if base.container.encrypted() {
+        let mut cuts: Vec<u64> = env.regions.iter().filter(|r| r.2.ends_with("-len")).map(|r| r.0).collect();
+        cuts.truncate(400);
+        ctx.count("enum.c06.chunk_boundary_cuts", cuts.len() as u64);
+        for k in cuts {
+            let mut c = base.clone();
+            c.config = "media".into();
+            c.media = vec![MediaOp::Cut(k)];
+            ctx.eval(&c, &mut env);
+        }
+    }
     // every replacement value at the two low bytes of everything that looks like a 64-bit length / count field
     // (lengths, tags and discriminants are what C06's quantifier singles out)
     let lens = gen::length_like_positions(&env);
@@ -825,6 +885,54 @@ fn enum_c06(ctx: &mut Ctx, seed: u64) -> Result<(), String> {
                     ctx.eval(&c, &mut env);
                 }
             }
+        }
+    }
+    Ok(())
+}
+
+/// C06 over the encrypted-plain container with small chunks: the deserializers sit directly on top of CryptoReader
+/// (no decompressor in between to notice a short stream), so what CryptoReader reports at a chunk boundary - end of
+/// stream, a short count - reaches the bulk read paths unfiltered. Cuts at every chunk boundary, and damage to every
+/// chunk's length field.
+fn enum_c06_enc(ctx: &mut Ctx, seed: u64) -> Result<(), String> {
+    let mut rng = Rng::new(seed);
+    let mut base = gen::gen_base("C06", &mut rng, false, seed);
+    base.container = Container::EncPlain;
+    base.sc = base.sc.min(3);
+    base.bufsize = *rng.pick(&[17u64, 61, 64, 255, 1000, 4096]);
+    base.load_key = base.key;
+    if base.subject == "CryptoPipe" {
+        base.subject = "PackedLast".into();
+    }
+    let mut env = match prepare(&base) {
+        Ok(e) => e,
+        Err(e) => {
+            ctx.intact_failed(&base, &e);
+            return Err(e);
+        }
+    };
+    let mut starts: Vec<u64> = env.regions.iter().filter(|r| r.2.ends_with("-len")).map(|r| r.0).collect();
+    if starts.len() > 300 {
+        // keep the first, the last and a seeded sample of the rest
+        let mut keep = vec![starts[0], starts[1], *starts.last().unwrap()];
+        for _ in 0..297 {
+            keep.push(*rng.pick(&starts));
+        }
+        keep.sort();
+        keep.dedup();
+        starts = keep;
+    }
+    ctx.count("enum.c06.enc_chunk_boundaries", starts.len() as u64);
+    for &k in &starts {
+        let mut c = base.clone();
+        c.config = "media".into();
+        c.media = vec![MediaOp::Cut(k)];
+        ctx.eval(&c, &mut env);
+        for m in [MediaOp::Xor(k, 0x01), MediaOp::Set(k, 0), MediaOp::Set(k + 1, 1), MediaOp::Set(k + 7, 0x80)] {
+            let mut c = base.clone();
+            c.config = "media".into();
+            c.media = vec![m];
+            ctx.eval(&c, &mut env);
         }
     }
     Ok(())
@@ -850,6 +958,8 @@ fn run_job(ctx: &mut Ctx, prop: &str, seed: u64, i: u64) {
         "C06" => {
             if selector < 12 {
                 enum_c06(ctx, job_seed)
+            } else if selector < 16 {
+                enum_c06_enc(ctx, job_seed)
             } else {
                 single(ctx, prop, job_seed)
             }
@@ -862,7 +972,18 @@ fn run_job(ctx: &mut Ctx, prop: &str, seed: u64, i: u64) {
     }
 }
 fn single(ctx: &mut Ctx, prop: &str, job_seed: u64) -> Result<(), String> {
-    let (case, mut env) = gen::gen_single(prop, job_seed)?;
+    let (case, mut env) = match gen::gen_single(prop, job_seed) {
+        Ok(x) => x,
+        Err(e) => {
+            if prop == "C06" {
+                // the same first draw as gen_single: the case whose fault-free reference run failed
+                let mut base = gen::gen_base(prop, &mut Rng::new(job_seed), false, job_seed);
+                base.load_key = base.key;
+                ctx.intact_failed(&base, &e);
+            }
+            return Err(e);
+        }
+    };
     ctx.eval(&case, &mut env);
     Ok(())
 }
@@ -1184,6 +1305,18 @@ fn main() {
                 }
             }
             arm_cpu_watchdog(EVAL_CPU_SECONDS);
+            if case.config == "intact" {
+                match prepare(&case) {
+                    Err(e) if e.contains("panicked") => {
+                        println!("{}", json!({"verdict": "violation", "oracle": "C06.intact.panic", "detail": e, "outcome": "panic", "log_hash": "-"}));
+                        std::process::exit(1);
+                    }
+                    _ => {
+                        println!("{}", json!({"verdict": "ok", "outcome": "ok", "log_hash": "-"}));
+                        std::process::exit(0);
+                    }
+                }
+            }
             let res: Result<EvalSummary, String> = if case.prop == "C06" && !flag(&args, "--no-fork") {
                 prepare(&case).and_then(|mut env| forked_summary(&case, &mut env, 6 << 30))
             } else {
